@@ -10,6 +10,7 @@ import json
 import multiprocessing
 import os
 import random
+import signal
 
 from .. import common, tlc
 from .. import c19_lang as L
@@ -26,6 +27,7 @@ CHECK_DEADLOCK FALSE
 """
 DUMP_CFG = 'SPECIFICATION Spec\nINVARIANT Dump\nCHECK_DEADLOCK FALSE\n'
 WORKERS = int(os.environ.get('VERIF_WORKERS', '16'))
+ANALYSIS_TIMEOUT_S = 5.0     # the fixed point of nested tuple types (x = (x, 1) in a loop) does not terminate
 
 TIERS = {
     # fam_full: exhaustive family sizes; fam_sample: (size, how many sampled); rnd: (count, statement budget)
@@ -135,14 +137,28 @@ def _export_init(tables_dump):
     _G['tables'] = tables_dump
 
 
+class _Diverged(BaseException):
+    pass
+
+
+def _alarm(*_):
+    raise _Diverged()
+
+
 def _export_one(tree):
     p = L.flatten(tree)
     src = L.render(p)
+    signal.signal(signal.SIGALRM, _alarm)
+    signal.setitimer(signal.ITIMER_REAL, ANALYSIS_TIMEOUT_S)
     try:
         c = X.export_claims(_G['mods'], _G['tables'], tree, p, src)
+    except _Diverged:
+        return p, src, None, 'diverged'
     except Exception as e:      # the analysis (or the exporter) failed on this program
         import traceback
         return p, src, None, '%s: %s\n%s' % (type(e).__name__, e, traceback.format_exc(limit=6))
+    finally:
+        signal.setitimer(signal.ITIMER_REAL, 0)
     return p, src, c, None
 
 
@@ -236,6 +252,12 @@ class Batch:
     def run(self, trees, rep=None, replay=True, coverage=False):
         """Returns dict(progs, srcs, claims, terms, findings, stats); findings = list of (signature, pid, record, term)."""
         exported = export_all(trees, self.tables, self.workers)
+        diverged = [i for i, e in enumerate(exported) if e[3] == 'diverged']
+        if len(diverged) > max(3, len(trees) // 100):
+            raise common.MachineryError('type inference did not terminate within %.0fs on %d of %d programs; first:\n%s' % (
+                ANALYSIS_TIMEOUT_S, len(diverged), len(trees), exported[diverged[0]][1]))
+        self.index = [i for i, e in enumerate(exported) if e[3] != 'diverged']      # batch pid -> index in `trees`
+        exported = [exported[i] for i in self.index]
         errors = [(i, e[3]) for i, e in enumerate(exported) if e[3]]
         if errors:
             i, msg = errors[0]
@@ -261,7 +283,7 @@ class Batch:
         seen = {t['pid'] for t in terms}
         if len(seen) != len(progs):
             raise common.MachineryError('TLC reported terminal states for %d of %d programs' % (len(seen), len(progs)))
-        stats = dict(programs=len(progs), executions=len(terms))
+        stats = dict(programs=len(progs), executions=len(terms), analysis_diverged=len(diverged))
         for t in terms:
             stats['out_' + t['out']['k']] = stats.get('out_' + t['out']['k'], 0) + 1
         if replay:
@@ -279,7 +301,7 @@ class Batch:
         if rep is not None:
             rep.add_tlc(res)
         return dict(progs=progs, srcs=[e[1] for e in exported], claims=claims, terms=terms, findings=findings,
-                    stats=stats, res=res)
+                    stats=stats, res=res, trees=[trees[i] for i in self.index], index=self.index)
 
 
 # ------------------------------------------------------------------------------------------------
@@ -295,7 +317,7 @@ def shrink(batch, tree, sig, rounds=12):
         ok = sorted({pid for s, pid, _, _ in out['findings'] if s == sig})
         if not ok:
             break
-        cur = cands[ok[0]]          # the smallest reduction that keeps the signature
+        cur = out['trees'][ok[0]]   # the smallest reduction that keeps the signature
     return cur
 
 
@@ -347,8 +369,9 @@ def run(rep):
     claims_checked = sum(sum(c['has'] for c in cl['types']) for cl in out['claims'])
     rep.set('types_claims_exported', claims_checked)
     rep.set('closure_claims_exported', sum(len(f) for cl in out['claims'] for f in cl['closure']))
+    trees = out['trees']
     for i in (0, len(trees) // 2, len(trees) - 1):
-        rep.sample(dict(family=tagged[i][0], source=out['srcs'][i]))
+        rep.sample(dict(family=tagged[out['index'][i]][0], source=out['srcs'][i]))
     # group monitor records by signature; shrink the witnesses of signatures that are not known findings
     groups = {}
     for sig, pid, b, t in out['findings']:
